@@ -71,7 +71,7 @@ def main(chk):
                 FS.fcmp('ole', FS.fdiv(FS.fsub(W['max' + ax], W['min' + ax]), W['v']), 1e6),
                 FS.fcmp('oge', W['p' + ax], W['min' + ax]), FS.fcmp('ole', W['p' + ax], W['max' + ax])]
     nop = lambda it, a: None
-    cb_timeout = 240 if quick else 1800
+    cb_timeout = 240 if quick else 600
     jobs = []
     for h, label in (('h_c20_index4d', 'uspg_4d'), ('h_c20_index3d', 'uspg_3d')):
         sess = api.Session(ir, mode='fp', overrides={FILL4: nop, APP3: nop})
